@@ -733,7 +733,7 @@ func modelledFormat(t *mtype, f string) bool {
 	case "ptr":
 		return modelledFormat(t.E, f)
 	case "dur":
-		return in("sec", "milli", "micro", "nano")
+		return in("sec", "milli", "micro", "nano", "iso8601")
 	case "time":
 		return in("unix", "unixmilli", "unixmicro", "unixnano")
 	case "bytes", "barr":
